@@ -177,7 +177,7 @@ def run_shk(ctx, ds):
     total = k * L + dlt
     sn = gen_snippets(rng, L, force_total=total)
     check_shk(ctx, ds, sn, L, ['shk', f'total=kL{dlt:+d}'])
-  for cid, rng in ctx.cases('shk', 500 if quick else 6000):
+  for cid, rng in ctx.cases('shk', 500 if quick else 20000):
     L = Ls[rng.randint(len(Ls))]
     sn = gen_snippets(rng, L)
     kl = ['shk', 'random']
@@ -297,7 +297,7 @@ def run_cifar_eval(ctx, dc, tf):
 
   for cid, (ch, cw, rep) in ctx.enum('cifar-eval-square', cases):
     one(ctx.rng('cifar-eval-square', ch, cw, rep), ch, cw, via_batch=False)
-  for cid, rng in ctx.cases('cifar-eval', 60 if quick else 1200):
+  for cid, rng in ctx.cases('cifar-eval', 60 if quick else 3000):
     if rng.rand() < 0.25:
       one(rng, 24, 24, via_batch=True)     # the defaults used by tasks.get_task
     else:
@@ -327,7 +327,7 @@ def find_window(out, img, ch, cw, tol=2e-3):
 
 def run_crop(ctx, dc):
   quick = ctx.quick
-  for cid, rng in ctx.cases('crop', 150 if quick else 1500):
+  for cid, rng in ctx.cases('crop', 150 if quick else 3000):
     ch, cw = int(rng.randint(1, 33)), int(rng.randint(1, 33))
     if rng.rand() < 0.15:
       ch = cw = 24
@@ -589,7 +589,7 @@ def run_xcheck(ctx, fedjax, tf):
   # ids written in models/shakespeare.py for its default vocab_size (used only to NAME the mechanism of a mismatch)
   alt_sh = {'bos': c_sh['V'] - 3, 'eos': c_sh['V'] - 2}
   shape_checked = set()
-  for cid, rng in ctx.cases('xcheck-shakespeare', 40 if quick else 400):
+  for cid, rng in ctx.cases('xcheck-shakespeare', 40 if quick else 1000):
     L = [4, 7][rng.randint(2)] if (quick or rng.rand() < 0.8) else 80
     sn = [bytes(np.asarray(rng.choice(list(b'\r9ab \xff\x00Z'), size=rng.randint(0, L + 2)), np.uint8)) for _ in range(6)]
     sn.append(b'\r\xff')                                   # highest character label and an OOV byte are always present
@@ -619,7 +619,7 @@ def run_xcheck(ctx, fedjax, tf):
   maxlen = 6
   pre = tok.as_preprocess_batch(maxlen)
   so_shape_done = False
-  for cid, rng in ctx.cases('xcheck-stackoverflow', 40 if quick else 400):
+  for cid, rng in ctx.cases('xcheck-stackoverflow', 40 if quick else 1000):
     words = vocab + ['zebra', 'qux']
     sents = []
     for ln in (int(rng.randint(1, 3)), int(rng.randint(3, maxlen)), maxlen - 1, int(rng.randint(maxlen, maxlen + 4))):
@@ -662,7 +662,7 @@ def run_xcheck(ctx, fedjax, tf):
   models_cls = [('emnist', me.create_logistic_model(), 62), ('emnist', me.create_conv_model(), 62),
                 ('emnist', me.create_dense_model(), 62), ('emnist', me.create_stax_dense_model(), 62),
                 ('cifar100', mc.create_logistic_model(), 100)]
-  for cid, rng in ctx.cases('xcheck-classification', 40 if quick else 300):
+  for cid, rng in ctx.cases('xcheck-classification', 40 if quick else 800):
     kind, model, ncls = models_cls[rng.randint(len(models_cls))]
     n = 4
     if kind == 'emnist':
@@ -867,7 +867,7 @@ def run_rowindep(ctx, fedjax, tf):
   else:
     specs += [('shakespeare-lstm', lambda: msh.create_lstm_model(), shk_batch(20)),
               ('stackoverflow-lstm', lambda: mso.create_lstm_model(), so_batch([f'w{i}' for i in range(10000)], 20))]
-  reps = 1 if quick else 2
+  reps = 1 if quick else 3
   for cid, (name, mk, mkbatch, rep) in ctx.enum('rowindep', [(n, m, b, r) for (n, m, b) in specs for r in range(reps)]):
     rng = ctx.rng('rowindep', name, rep)
     model = mk()
